@@ -298,6 +298,16 @@ def gen_cases(tier, seed):
         for action in ("rst", "fin", "server-close"):
             cases.append({"kind": "enum", "action": action,
                           "plan": {"scripts": [name], "seed": seed, "server_kwargs": {"write_speed_limit": 150}}})
+    # ... and the other limits: uploads and downloads whose blocks wait behind a server-wide / per-connection read or write limit
+    lim_scripts = ["stor_pasv", "retr_pasv"] if tier == "quick" else ["stor_pasv", "retr_pasv", "appe", "mlsd", "two_transfers", "abor_mid"]
+    lim_kwargs = [{"read_speed_limit": 3000}, {"write_speed_limit_per_connection": 3000}] if tier == "quick" else \
+        [{"read_speed_limit": 3000}, {"write_speed_limit_per_connection": 3000}, {"read_speed_limit_per_connection": 2000, "write_speed_limit": 5000},
+         {"write_speed_limit": 2500, "write_speed_limit_per_connection": 4000}]
+    for name in lim_scripts:
+        for kw in lim_kwargs:
+            for action in ("rst", "server-close"):
+                cases.append({"kind": "enum", "action": action, "stride": 3 if tier == "quick" else 1, "phase": seed % 3,
+                              "plan": {"scripts": [name], "seed": seed, "server_kwargs": kw}})
     # Server.close() long after the scripts ended: sessions already dropped by the server's own timeouts may have left
     # sockets behind that the (silent, non-reading) peers still hold
     for name in ("flood", "retr_huge_stall", "login_idle"):
